@@ -77,6 +77,7 @@ impl DerivedTS {
             &generics,
             self.bound.as_deref(),
             &self.dependencies,
+            &self.concrete,
         );
         let assoc_type = generate_assoc_type(&rust_ty, &crate_rename, &generics, &self.concrete);
         let name = self.generate_name_fn(&generics);
@@ -332,6 +333,7 @@ fn generate_impl_block_header(
     generics: &Generics,
     bounds: Option<&[WherePredicate]>,
     dependencies: &Dependencies,
+    concrete: &HashMap<Ident, Type>,
 ) -> TokenStream {
     use GenericParam as G;
 
@@ -364,7 +366,7 @@ fn generate_impl_block_header(
     let where_bound = match bounds {
         Some(bounds) => quote! { where #(#bounds),* },
         None => {
-            let bounds = generate_where_clause(crate_rename, generics, dependencies);
+            let bounds = generate_where_clause(crate_rename, generics, dependencies, concrete);
             quote! { #bounds }
         }
     };
@@ -376,6 +378,7 @@ fn generate_where_clause(
     crate_rename: &Path,
     generics: &Generics,
     dependencies: &Dependencies,
+    concrete: &HashMap<Ident, Type>,
 ) -> WhereClause {
     let used_types = {
         let is_type_param = |id: &Ident| generics.type_params().any(|p| &p.ident == id);
@@ -387,9 +390,16 @@ fn generate_where_clause(
         used_types.into_iter()
     };
 
+    // `name()` asks every type parameter which is not made concrete for its name, whether or not a
+    // field uses it (e.g. under a container-level `#[ts(as = "..")]` / `#[ts(type = "..")]`)
+    let named_params = generics
+        .type_params()
+        .filter(|p| !concrete.contains_key(&p.ident))
+        .map(|p| &p.ident);
+
     let existing = generics.where_clause.iter().flat_map(|w| &w.predicates);
     parse_quote! {
-        where #(#existing,)* #(#used_types: #crate_rename::TS),*
+        where #(#existing,)* #(#used_types: #crate_rename::TS,)* #(#named_params: #crate_rename::TS),*
     }
 }
 
